@@ -132,6 +132,16 @@ theorem C07_commit_visible (s : St) (close : Bool) (h : s.obsolete = false) :
   · simp [St.conn, St.commitExpire, hr, ht, Inst.expire]
   · rfl
 
+/-- rows deleted in the transaction stay in its deleted log until the transaction is closed or rolled back — also
+    across a COMMIT the engine refused (no step of the model: nothing may change) and across earlier commits —, so the
+    commit that finally succeeds still expires the parent's instance of every such row: its next read is not-found. -/
+theorem C07_commit_reaches_deleted_log (s : St) (close : Bool) (h : s.obsolete = false) (j : Nat) (c : Col)
+    (hj : j < s.p.n) (hd : s.del.contains (s.p.insts j).key = true)
+    (ha : s.p.tryGet s.dc (s.p.insts j).key = some j) :
+    (step (step s (.commit close)).1 (.read .P j c)).2
+      = freshAnswer ((step s (.commit close)).1.db (s.p.insts j).key) c :=
+  (C07_commit_visible s close h).2.2.2.2.2 j c hj (by simp [St.reached, hd]) ha
+
 /-- **No stale value — partial.**  For every history whose steps stay inside `good` (any length, any number
     of commit / rollback+begin / commit(close) points), in the state reached: every read of every live
     parent-side instance, cached or not, answers the committed value of its row (not-found if the row is
